@@ -71,6 +71,10 @@ func scenarioExprsW(thorough bool, wf int) []string {
 		"length(to_string(abs(b)))", "sum(map(&abs(k), a))", "length(to_array(ceil(b)))", "to_string(length(sort(b)))", "not_null(abs(b), length(a))", "max(map(&abs(@), a))", "abs(abs(abs(b)))", "length(keys(merge(a, a)))",
 		// empty literals / empty members as the FIRST operand of combining functions
 		"merge(`{}`, @)", "merge(`{}`, a, b)", "merge(a, b)", "merge(a, b, @)", "merge(`{}`, `{\"z\":1}`)", "merge(a, `{\"z\":1}`)", "[c, b.y][]", "[`[]`, b.y][]", "not_null(c, b.y)", "to_array(c)", "merge(a, b).x", "[merge(a, b), a]",
+		// a reordering call over the result of a call that may hand back its argument itself
+		"sort_by(to_array(a), &k)", "sort_by(not_null(a), &k)", "sort_by(to_array(@), &@)", "sort(to_array(b))", "reverse(to_array(b))", "sort_by(a[*], &k)", "sort_by(a[:], &k)", "sort_by(not_null(b, a), &@)", "max_by(to_array(a), &k)", "sort_by(to_array(a), &k)[*].t",
+		// a by-function nested in the key expression of another (per-interpreter scratch must not be shared by the two)
+		"sort_by(a, &sort_by([t, k], &@)[0])[*].t", "sort_by(a, &max_by([k, t], &@))[*].t", "max_by(a, &sort_by([t, k], &@)[0]).t", "sort_by(a, &sort_by([k, t], &@)[0])", "sort_by(@, &sort_by([k], &@)[0])", "map(&sort_by([k, t], &@)[0], a)",
 		"sort_by(a, &k) | sort_by(@, &t)", "sort_by(sort_by(a, &k), &t)", "a[*].sort(@)", "[sort_by(a, &k), a]", "sort_by(a, &k)[0].k",
 	} {
 		add(s)
@@ -236,6 +240,8 @@ var parserAlphabet = []string{
 	"`[\"a\", \"b\"]`", "{x: `[1, 2]`, y: `{\"k\": [3]}`}", "a | `[1, [2]]`[1]", "`{\"k\": {\"j\": 1}}`.k", "[`[1]`, `[1]`]",
 	// callee shapes: what stands before "(" and where the last plain identifier of the PREVIOUS expression ended
 	`("a")(x)`, "(a)(x)", `"a"(x)`, "a.b(x)", "a.b.c", "x.f(y)", `a.b | ("c")(d)`, "'f'(x)", "@.a", "[a](b)", "{a: b}(c)", "a.b.c.d", "f(x)", "a.f(x).g(y)", `(("a"))(x)`, "f (x)", "a . b", `"a"."b"("c")`,
+	// expressions that differ only in white space INSIDE a token (a cache keyed on normalised text conflates them)
+	"'x y'", "'x  y'", "'x\ty'", "`\"p q\"`", "`\"p  q\"`", "'x y' == 'x  y'", "[ 'x y' ]", "['x  y']",
 	"a = b", "a.b.c.d.e.f.g ? h", "a[1:2:3:4]", "@(a)", "a b", "a ]", "(a", "a)", "[-]", "a[99999999999999999999]", "!", "&", "a.'x'", "a\u0080", "\xff", "a | ", "[?a",
 }
 
